@@ -252,6 +252,82 @@ def dense_rydberg(B, N, om, de, cs, U):
 
 
 # ------------------------------------------------------------------------------------------
+# polynomial specification side: for specifications that are *derivatives* of a dense operator
+# ------------------------------------------------------------------------------------------
+_POLY_NATIVE = None
+
+
+def _poly_module(B):
+    """the exact-polynomial module: the shim's own instance under the shim; under real torch (native replay)
+    poly.py is loaded by file path, so the shim's fake `torch` never comes onto sys.path there"""
+    global _POLY_NATIVE
+    if B.mode == "sym":
+        return B.poly
+    if _POLY_NATIVE is None:
+        import importlib.util
+        import os
+        path = os.path.join(os.path.dirname(os.path.dirname(os.path.dirname(os.path.abspath(__file__)))), "poly.py")
+        spec = importlib.util.spec_from_file_location("symtorch_poly_for_specifications", path)
+        _POLY_NATIVE = importlib.util.module_from_spec(spec)
+        spec.loader.exec_module(_POLY_NATIVE)
+    return _POLY_NATIVE
+
+
+class PolySpec:
+    """Element backend for the dense helpers above whose entries are always exact polynomials in *named*
+    symbols -- in both modes.  Under the shim the names denote the very symbols handed to the code under test
+    (the registry is keyed by name); natively the polynomials are evaluated at the numeric assignment of the
+    run.  `diff` is the formal partial derivative (angles: d cos = -sin, d sin = cos); it never touches the
+    code under test."""
+    np_dtype = object
+
+    def __init__(self, B):
+        self.B = B
+        self.poly = _poly_module(B)
+        if B.mode != "sym":
+            self.poly.reset_registry()
+        self.I = self.poly.I
+        self.angles = []
+
+    def real(self, name):
+        return self.poly.var(name)
+
+    def angle(self, name):
+        """-> (cos, sin) symbols of the angle `name`"""
+        if name not in self.angles:
+            self.angles.append(name)
+        phi = self.poly.angle(name)
+        return self.poly.p_cos(phi), self.poly.p_sin(phi)
+
+    def conj(self, x):
+        return self.poly.Poly.coerce(x).conj()
+
+    def diff(self, arr, name):
+        d = np.frompyfunc(lambda p: self.poly.diff(p, name), 1, 1)
+        return np.asarray(d(np.asarray(arr, dtype=object)), dtype=object)
+
+    def subs(self, arr, values):
+        """substitute rational constants for named symbols (the literal zeros of a case) -- AFTER differentiating"""
+        f = np.frompyfunc(lambda p: self.poly.subs_const(p, values), 1, 1)
+        return np.asarray(f(np.asarray(arr, dtype=object)), dtype=object)
+
+    def lower(self, arr):
+        """polynomial array -> array of the run's element type (identity under the shim; evaluation at the
+        run's numeric assignment natively)"""
+        arr = np.asarray(arr, dtype=object)
+        if self.B.mode == "sym":
+            return arr
+        env = dict(self.B.env)
+        for a in self.angles:
+            env[f"cos({a})"] = math.cos(float(env[a]))
+            env[f"sin({a})"] = math.sin(float(env[a]))
+        out = np.zeros(arr.shape, dtype=complex)
+        for idx in np.ndindex(arr.shape):
+            out[idx] = self.poly.Poly.coerce(arr[idx]).evalf(env)
+        return out
+
+
+# ------------------------------------------------------------------------------------------
 # comparison
 # ------------------------------------------------------------------------------------------
 class SparseOp:
